@@ -110,6 +110,14 @@ CLAIMED.update({
             COVER_NOTE, 'DESIGN.md §3 C10'),
 })
 
+CLAIMED.update({
+    'C20': ('model_checking',
+            'logicizer.graph_to_logic run for real on seeded labelled graphs; an oracle built from the graph (edges, labels as independent expression trees) is compared by z3 with the exported action / initial condition for every pair of valuations with a node value in the graph; families with edge presence and label constants as rigid constants cover all sub-multigraphs on 2-3 nodes in one run',
+            'Bounded solver check per graph and per family of graphs: all valuations of the node variable, labelled variables and primed copies symbolic.',
+            'Trusted: z3, dd node accessors. Bounds: graphs of 2-5 nodes, variables of 1-3 bits, labels of depth <= 2; receptiveness assumptions only checked for absence when not requested.',
+            'DESIGN.md §3 C20'),
+})
+
 NOT_APPLICABLE = {
     'C16': 'Parser/precedence/round-trip: PLY regex lexer + table-driven LALR driver over token sequences; no arithmetic or bit-level state for a solver to range over. CrossHair on lexyacc.Parser.parse with symbolic strings (len <= 3) answers "Unable to meet precondition" after 90 s. See DESIGN.md §5.',
 }
